@@ -998,7 +998,40 @@ def check_labelling(chk, pool, fixed):
     chk.extra["cyclic_graphs"] = len(graphs)
 
 
+def ps_after_swap_real(nq, a, b, conds):
+    """modes of the post-selection conditions of a processor after the converter appended SWAP(a, b)"""
+    from perceval.converters import MyQLMConverter
+    from perceval.components import Processor
+    from perceval.utils import PostSelect
+    conv = MyQLMConverter.__new__(MyQLMConverter)
+    conv._converted_processor = Processor("SLOS", 2 * nq)
+    conv._converted_processor.set_postselection(PostSelect(" & ".join(f"{c} == 1" for c in conds)))
+    try:
+        conv._create_2_qubit_gates_from_catalog("swap", 2 * a, 2 * b, True)
+        e = ps_json(conv._converted_processor.post_select_fn)
+    except Exception as ex:
+        return "raised:" + type(ex).__name__
+
+    def leaves(x):
+        if x is True:
+            return []
+        if "c" in x:
+            return [sorted(x["c"])]
+        if "not" in x:
+            return leaves(x["not"])
+        return [l for k in ("and", "or", "xor") if k in x for sub in x[k] for l in leaves(sub)]
+    return sorted(leaves(e))
+
+
+def detect_swap_fixed():
+    """does the tree move the saved post-selection conditions with a SWAP (repaired) or leave them (pinned)?"""
+    return ps_after_swap_real(3, 0, 1, [[0, 1]]) == [[2, 3]]
+
+
 def check_swap_modemap(chk, pool):
+    swap_fixed = detect_swap_fixed()
+    chk.extra["swap_postselection_rule_of_tree"] = "conditions follow the photons (repaired)" if swap_fixed else \
+        "conditions stay on the old modes (pinned)"
     from perceval.converters.abstract_converter import _create_mode_map
     from perceval.converters import MyQLMConverter
     from perceval.components import Processor
@@ -1030,6 +1063,18 @@ def check_swap_modemap(chk, pool):
                 chk.fail("broken", "swap-model-mismatch", f"SWAP({a},{b}): code {real}, model {rs}",
                          {"kind": "swap", "a": a, "b": b})
                 continue
+            # post-selection conditions saved before the SWAP and re-applied after it (a condition on qubit a, one on a
+            # qubit the SWAP does not touch, one on a qubit in between when there is one)
+            others = [q for q in range(nq) if q not in (a, b)]
+            cq = [a] + others[:1] + [q for q in others if min(a, b) < q < max(a, b)][:1]
+            conds = [[2 * q, 2 * q + 1] for q in dict.fromkeys(cq)]
+            rps = ps_after_swap_real(nq, a, b, conds)
+            mps = pool.ask({"op": "psswap", "fixed": swap_fixed, "a": a, "b": b, "conds": conds})
+            chk.branch("swap-with-postselection")
+            if sorted(map(sorted, mps.get("conds", []))) != rps:
+                chk.fail("broken", "swap-postselect-model-mismatch",
+                         f"SWAP({a},{b}) with conditions on {conds}: code re-applies {rps}, model {mps}",
+                         {"kind": "psswap", "a": a, "b": b, "conds": conds})
             # direct oracle: the permutation exchanges the two pairs and fixes everything else
             if "perm" in real:
                 f, perm = real["first"], real["perm"]
@@ -1232,7 +1277,7 @@ def run(chk: core.Check):
                              "conv:converter-reused", "conv:reused-generic-twin", "conv:reused-redeclared",
                              "conv:reused-other-size", "conv:pp-qubits-swapped-away", "cqprobe", "cqprobe:array-before-used-var",
                              "cqprobe:converter-reused", "label-mixed",
-                             "label-with-other-2q", "swap-non-adjacent", "cyclic:True", "cyclic:False", "malformed"]
+                             "label-with-other-2q", "swap-non-adjacent", "swap-with-postselection", "cyclic:True", "cyclic:False", "malformed"]
     import perceval as pcvl
     pcvl.random_seed(chk.seed)
     pool = Pool(chk, chk.pick(8, 12))
@@ -1554,21 +1599,21 @@ def np_fails(ob, g, tol, zero_counts=True, leak=False):
     return devn / abs(cn) > tol
 
 
-def session_last_fails(sess, tol):
+def session_last_fails(sess, tol, leak=False):
     conv = make_converter(sess["fw"])
     r = None
     for c in sess["circuits"]:
         r = run_conv_case(dict(c, kind="conv", fw=sess["fw"]), conv)
-    return np_fails(r["ob"], r["g"], tol)
+    return np_fails(r["ob"], r["g"], tol, leak=leak)
 
 
-def shrink_session(sess, tol):
+def shrink_session(sess, tol, leak=False):
     """fewer earlier conversions, then fewer gates in each circuit, while the last conversion still fails"""
     from . import gens
 
     def safe(s2):
         try:
-            return session_last_fails(s2, tol)
+            return session_last_fails(s2, tol, leak)
         except Exception:
             return False
     cur = json.loads(json.dumps(sess))
@@ -1598,7 +1643,7 @@ def refine_session_failure(chk, idx, tol):
     last = dict(replay["circuits"][-1], kind="conv", fw=replay["fw"])
     try:
         r = run_conv_case(last)
-        alone = np_fails(r["ob"], r["g"], tol)
+        alone = np_fails(r["ob"], r["g"], tol, leak=sig.endswith("leak"))
     except Exception:
         alone = False
     if alone:
@@ -1607,7 +1652,7 @@ def refine_session_failure(chk, idx, tol):
         chk.failures[idx] = (kind, sig2, what + f" — also with a fresh converter [shrunk to "
                              f"{[(o['g'], o['q']) for o in small]}]", dict(last, ops=small))
         return
-    small = shrink_session(replay, tol)
+    small = shrink_session(replay, tol, leak=sig.endswith("leak"))
     desc = "; then ".join(str([(o["g"], o["q"], o.get("p")) for o in c["ops"]]) +
                           (f" decl={c['decl']}" if c.get("decl") else "") for c in small["circuits"])
     chk.failures[idx] = (kind, "conv-history-dependent" + sig[len("conv-session"):],
@@ -1707,6 +1752,14 @@ def replay_case(chk, pool, data, fixed):
         items, pr, pm = [], [], []
         handle_session(chk, case, items, pr, pm, fixed, generated=False)
         handle_tables(chk, pool, items, fixed)
+    elif kind == "psswap":
+        nq = max(case["a"], case["b"], *[m // 2 for c in case["conds"] for m in c]) + 1
+        rps = ps_after_swap_real(nq, case["a"], case["b"], case["conds"])
+        mps = pool.ask({"op": "psswap", "fixed": detect_swap_fixed(), "a": case["a"], "b": case["b"],
+                        "conds": case["conds"]})
+        chk.case(("psswap", json.dumps(case)), nontrivial=True)
+        if sorted(map(sorted, mps.get("conds", []))) != rps:
+            chk.fail("broken", "swap-postselect-model-mismatch", f"{case}: code {rps}, model {mps}", case)
     elif kind == "cqprobe":
         run_probe(chk, pool, case, generated=False)
         if case.get("reuse"):      # the same converter object converts the probes one after the other
